@@ -240,6 +240,10 @@ impl Check for C06 {
             Tier::Thorough => 1500,
         }
     }
+    fn watchdog_s(&self) -> u64 {
+        // runs take milliseconds; a worker that shows no progress for this long is in a loop
+        30
+    }
 
     fn run(&self, p: &Params, tape: &mut Tape, ctx: &mut Ctx) {
         let opts = StreamOpts { max_msgs: 6, permute_pointers: true, gaps: true, max_gates: 200, t31_percent: 70 };
